@@ -65,7 +65,7 @@ CLAIMED['C02'] = dict(
     text='For every link class (pipe incl. CV, head pump with 1/2/3-point curve, power pump, PRV, PSV, FCV, TCV) in each status it can have, on templates with links into/out of tanks and '
          'reservoirs and parallel links, for both Hazen-Williams approximations: closed => residual is the flow itself; open pipe => residual = hs - he - F(q) with the documented F, F odd, '
          'zero at zero, strictly increasing, piecewise pieces as documented and continuous; pumps on H = A - B q^C above the smoothing point, extension non-increasing; power pump P = dH q 9810; '
-         'active valves hold their setting; open valves / TCV obey 8K/(g pi^2 d^4) q^2. For ALL flows and heads, and (second pass) all positive coefficients.',
+         'active valves hold their setting; open valves / TCV obey 8K/(g pi^2 d^4) q^2. For ALL flows and heads, and (second pass) all positive coefficients. Update audit: after every single change the ModelUpdater has a registration for (status, isolation flag, setting, diameter, roughness, length, minor loss, power, leak status/area/coefficient, elevation, PDD pressures) the incrementally updated model has the same rows and parameter values as a fresh build.',
     note='Trusted: z3; floats as reals (1e-8 relative slack where the code folds float constants); Newton solve drives residuals to zero; 3-point pump fit (scipy) enters as returned numbers; '
          'reverse-flow branches of pumps need the solver and are not claimed.',
     ref='DESIGN.md section 4, C02')
@@ -117,7 +117,7 @@ CLAIMED['C05'] = dict(
 CLAIMED['C09'] = dict(
     engine='symx+ctrlplane',
     technique='symbolic execution of the real run_sim loop (Newton solve stubbed) with symbolic initial link-status bits and symbolic control instants; z3 decides the feasible orderings and certifies that the path tree is exhausted; on every path the real incremental graph bookkeeping and the C++ search rebuilt from source are executed and compared with an independent reachability oracle',
-    text='On two graphs (parallel links of opposite orientation and of different type, bridge, dead ends, reservoir + tank) for ALL 2^k initial closed/open patterns of the listed links and all orderings of up to two '
+    text='On three graphs (G3 with EPANET-style ids shared by a junction and a pipe) - parallel links of opposite orientation and of different type, bridge, dead ends, reservoir + tank) for ALL 2^k initial closed/open patterns of the listed links and all orderings of up to two '
          'opening/closing time controls with symbolic instants: at every solve junction._is_isolated <=> not reachable from a source over non-closed links, link flags follow, isolated junctions have no balance row, '
          'and the recorded results are zero exactly for cut-off junctions and their links and non-zero for connected ones, including after reconnection.',
     note='Trusted: z3 for path feasibility; the graph search itself is executed per path, not encoded (no C++ symbolic executor available) - this is bounded exhaustive path enumeration driven by the solver; stubbed solve returns non-zero demand/head for connected junctions.',
@@ -183,8 +183,8 @@ CLAIMED['C15'] = dict(
     engine='symx+cxxsym',
     technique='the real operator overloading / aml.Model registration executed in Python and the C++ evaluator (set_structure, evaluate, evaluate_csr_jacobian, _evaluate, add/remove) INTERPRETED from clang\'s JSON AST of the current evaluator.cpp, both on z3 Real proxies; every value-dependent branch forked; SMT (z3 NRA + uninterpreted transcendentals) decides residual == direct evaluation == reference and Jacobian == reference derivative per path',
     text='For ~900 expression shapes of a bounded grammar (all binary operators x all leaf-kind pairs incl. reflected forms and the 0/1 shortcuts, 11 unary operators, two nested binary operators in both associations, '
-         'unary/binary mixes, shared sub-expressions also across constraints, inequality / if_else, conditional constraints with 2-3 branches, models of up to 3 constraints) and for 11 (thorough 23) add / remove / ConstraintDict / '
-         'set value / load_var_values_from_x / set_structure histories: for ALL values of the variables and parameters in [-8, 8], on every feasible path, the residual the interpreted C++ returns at Constraint.index equals '
+         'unary/binary mixes, shared sub-expressions also across constraints, inequality / if_else, conditional constraints with 2-3 branches, models of up to 3 constraints) and for 15 (thorough 27) add / remove / ConstraintDict / '
+         'set value / load_var_values_from_x / set_structure histories (incl. values changed between the residual and the Jacobian evaluation): for ALL values of the variables and parameters in [-8, 8], on every feasible path, the residual the interpreted C++ returns at Constraint.index equals '
          'Constraint.evaluate() and an independent reference value; the CSR Jacobian entry at (Constraint.index, Var.index) equals an independent rule-table derivative (0 for unused variables) wherever the derivative exists; '
          'indices are permutations; get_x / Leaf.value read back the last value given; nothing raises and no deleted, uninitialised or out-of-range C++ memory is touched. Object addresses (std::set order) ascending and descending (thorough: scrambled).',
     note='Trusted: z3; clang\'s AST; the container / allocation model of vf/cxxsym.py (validated on every run against the compiled evaluator rebuilt from the same source); the SWIG wrapper and scipy.sparse only run in the replay; '
@@ -195,7 +195,7 @@ CLAIMED['C12'] = dict(
     engine='symx',
     technique='symbolic execution of the real write_inpfile / read_inpfile (InpFile.write/read, to_si/from_si, control and rule parsers) on a model of z3 Real/Int proxies; numbers cross the real file as tokens whose read-back value is a fresh variable within half a unit of the last printed digit; SMT (z3 LRA/LIA) decides per path that every attribute returns within the precision of the file and that a second cycle is the identity',
     text='The kitchen-sink model (every element type, statuses, curves, patterns, demand categories, sources, options, tags, vertices, simple controls on status/setting at times, clock times, levels and pressures, rules with AND/OR/ELSE/PRIORITY) '
-         'with ~230 symbolic numeric attributes is written and read back twice, for each of the ten flow units (INP 2.2; 2.0 for two unit systems quick / all ten thorough). On every feasible path: same structure after the normalisations the statement allows; every '
+         'with ~230 symbolic numeric attributes is written and read back twice, for each of the ten flow units (INP 2.2; 2.0 for two unit systems quick / all ten thorough) and for variants (D-W / C-M head loss, reaction orders, defaults not written, GPV, clock thresholds in the 12 o\'clock hours, concrete time-option sets; thorough: example networks Net1-3 with symbolic attributes). On every feasible path: same structure after the normalisations the statement allows; every '
          'numeric attribute z3-proved within the tolerance table of vf/props/c12.py (11 significant digits in general; 6 decimals for curves and patterns; 4 decimals for reaction and energy entries; 6 digits inside rules); the second file has the '
          'same text as the first (token by token) and the second model is z3-equal to the first copy.',
     note='Trusted: z3; floats as reals (the digit-level behaviour of float formatting is covered by the replay only); the token model of str.format / float(); one model structure; times concrete except control instants; '
